@@ -64,12 +64,27 @@ def make_source(sym, kind):
         envs = Environments.from_custom(SymEnv(data))
         if kind == 'logged': envs = envs.logged(BanditEpsilonLearner(.5, seed=2))
         return envs, unchanged, kind == 'custom'
+    if kind in ('nested_list','nested_ns'):
+        from coba.primitives import Categorical
+        LV = ['u','v','w']
+        if kind == 'nested_list': mk = lambda i: [[Categorical(LV[i % 3], LV), i], i % 2]
+        else: mk = lambda i: {'a': [Categorical(LV[i % 3], LV), i], 'b': [3, i]}
+        data = [{'context': mk(i), 'actions': [0,1,2], 'rewards': [(i+k) % 3 for k in range(3)]} for i in range(4)]
+        snap = copy.deepcopy([d['context'] for d in data])
+        def unchanged():
+            def eq(a, b):
+                if type(a) is not type(b): return False
+                if isinstance(a, dict): return a.keys() == b.keys() and all(eq(a[k], b[k]) for k in a)
+                if isinstance(a, (list,tuple)): return len(a) == len(b) and all(eq(x,y) for x,y in zip(a,b))
+                return a == b
+            return all(eq(d['context'], c) for d,c in zip(data, snap))
+        return Environments.from_custom(SymEnv(data, kind)), unchanged, False
     raise ValueError(kind)
 
 def unwrapless(v): return v
 def _same(X, Y, snap): return all(a is b for r,s in zip(X,snap[0]) for a,b in zip(r,s)) and list(Y) == snap[1]
 
-SOURCES = ['linear','neighbors','kernel','mlp','lambda','lambda_rng','xy','csv','custom','logged']
+SOURCES = ['linear','neighbors','kernel','mlp','lambda','lambda_rng','xy','csv','custom','logged','nested_list','nested_ns']
 FILTERS = {
     'none':      lambda e: e,
     'shuffle':   lambda e: e.shuffle(seed=3),
@@ -140,7 +155,7 @@ def params_(tier):
         pairs = [(a,b) for a in fl for b in fl if not (a == 'none' and b != 'none')]
     return [dict(src=s, f1=a, f2=b) for s in SOURCES for a,b in pairs] + [dict(src='lambda30', f1=a, f2=b) for a,b in (('cache','none'),('chunk','none'),('cache','take'),('none','none'),('shuffle','cache'))]
 
-@obligation('C04','reread', bounds={'quick':"10 sources (+ a 30-interaction lambda source for the cache filters) x (27 single filters + 10 two-filter chains) x read histories of 2 operations (3 thorough) from {full read, partial read abandoned after j interactions, params, pickle round-trip, materialize} followed by a full read; symbolic integer features in the custom source",
+@obligation('C04','reread', bounds={'quick':"12 sources (incl. two whose contexts nest a categorical inside a list / namespace dict) (+ a 30-interaction lambda source for the cache filters) x (27 single filters + 10 two-filter chains) x read histories of 2 operations (3 thorough) from {full read, partial read abandoned after j interactions, params, pickle round-trip, materialize} followed by a full read; symbolic integer features in the custom source",
                                     'thorough':"all ordered filter pairs; plus save()/from_save()"},
             functions=FUNCS, params=params_, classify=_classify, budget={'quick':100,'thorough':3000})
 def reread(sym, src, f1, f2):
@@ -185,3 +200,38 @@ def reread(sym, src, f1, f2):
     sym.check(dict(env.params) == params0 or 'materialize' in ops or 'pickle' in ops, f"params changed after history {ops}: {dict(env.params)} vs {params0}")
     if unchanged is not None:
         sym.check(bool(unchanged()), f"reading modified the data handed to the constructor (history {ops})")
+
+
+# ---------------------------------------------------------------------------------------------------
+def make_two(sym):
+    A = [{'context': [(i*2) % 3 - 1, i], 'actions': [0,1,2], 'rewards': [(i+k) % 3 for k in range(3)]} for i in range(3)]
+    B = [{'context': [7+i, (i*5) % 4 - 1], 'actions': [0,1,2], 'rewards': [(2*i+k) % 3 for k in range(3)]} for i in range(4)]
+    return Environments([SymEnv(A,'A'), SymEnv(B,'B')])
+
+@obligation('C04','several_environments', bounds="an Environments object over TWO custom environments (3 and 4 interactions, concrete features) under each of the 27 filter shortcuts; history of <=3 reads (which environment, full or abandoned after 1 interaction: solver-enumerated) followed by a full read of both: every full read of an environment equals the read of the same environment in a fresh identical Environments object that never read the other one",
+            functions=FUNCS, params=lambda tier: [dict(f1=f) for f in FILTERS], classify=lambda v: f"{v.get('info',{}).get('f1')}|{v['what'].split(':')[0]}"[:140], budget={'quick':100,'thorough':900})
+def several_environments(sym, f1):
+    sym.note(f1=f1)
+    ref = []
+    try:
+        for k in (0,1):
+            envs = FILTERS[f1](make_two(sym))
+            ref.append(([freeze(i) for i in envs[k].read()], dict(envs[k].params)))
+        sym.check(len(envs) == 2 or f1 in ('shuffle',), "shortcut changed the number of environments")
+    except Exception:
+        sym.check(True, 'combination not type-compatible: outside the claim'); return
+    envs = FILTERS[f1](make_two(sym))
+    n = sym.choice('n_ops', [1,2,3])
+    hist = []
+    for i in range(n):
+        k = sym.choice(f'env{i}', [0,1]); full = sym.flag(f'full{i}')
+        hist.append((k, 'full' if full else 'partial'))
+        if full:
+            d = same(ref[k][0], [freeze(x) for x in envs[k].read()])
+            sym.check(d is None, f"read of environment {k} after history {hist[:-1]} differs from its read in a fresh identical Environments object: {d}")
+        else:
+            it = iter(envs[k].read()); next(it, None); del it
+    for k in (0,1):
+        d = same(ref[k][0], [freeze(x) for x in envs[k].read()])
+        sym.check(d is None, f"final read of environment {k} after history {hist} differs from its read in a fresh identical Environments object: {d}")
+        sym.check(dict(envs[k].params) == ref[k][1], f"params of environment {k} changed after history {hist}")
